@@ -4,6 +4,9 @@ workers, comparison with the TLC classification.
 A `Design` is the Python twin of the descriptor documented in Elab.tla.  `Design.tlc()` is what TLC
 sees, `gen_variant()` prints one statement permutation / side-flip assignment as real pymtl3 source
 (one Component class per component of the hierarchy, statements literally in that order).
+Statements are connects ('c'), @update / lambda / @update_ff blocks ('u', 'l', 'f') and `@s.func`
+helper functions ('h'); blocks and helpers name the helpers they call (`calls`, indices into
+`stmts`), helpers are printed as `@s.func def fn<index>()` wherever the permutation puts them.
 
 Run as a script (`python elabgen.py job.json out.json`) this file is the elaboration worker: it is
 started by `run_jobs()` in sub-processes (one PYTHONHASHSEED each), writes the generated classes
